@@ -1,2 +1,9 @@
-import Blackbird
-#print axioms Blackbird.dictGet
+import Blackbird.Props.C07
+#print axioms Blackbird.C07_call_eq_inline
+#print axioms Blackbird.C07_template_call_eq_inline
+#print axioms Blackbird.C07_calls_independent
+#print axioms Blackbird.C07_modes_increasing
+#print axioms Blackbird.C07_repeated_include_skipped
+#print axioms Blackbird.C07_path_resolution
+#print axioms Blackbird.C07_nested_includes_merged
+#print axioms Blackbird.C07_legacy_call_site_wrong
